@@ -156,6 +156,9 @@ Definition encoder_encode (e : encoder) (b : block) : res encoder :=
   (* frame.channels().collect::<ArrayVec<_, MAX_CHANNELS>>() is evaluated as an argument of
      encode_frame, after the length check below; a frame has at most 8 channels *)
   let pcm_frames := block_len b in
+  (* a frame never holds more samples than the stream's block size (repo fix 6387abb: reachable only when a
+     front-end offers what an earlier failed write left in its buffer) *)
+  if si_max_bs (e_si e) <? pcm_frames then Err EBlockSize else
   let sp := {| sp_sample := e_samples_written e; sp_byte := Some (e_count e);
                sp_frames := pcm_frames mod 65536 |} in
   written <- u64_add p (e_samples_written e) pcm_frames;;
